@@ -32,11 +32,11 @@ var engine2Tiers = map[string]map[string]e2spec{
 
 // e2Violation mirrors the fields of rsim.Violation the driver needs.
 type e2Violation struct {
-	Property string          `json:"property"`
-	Sig      string          `json:"sig"`
-	Detail   string          `json:"detail"`
-	Config   string          `json:"config"`
-	Choices  []int           `json:"choices"`
+	Property string `json:"property"`
+	Sig      string `json:"sig"`
+	Detail   string `json:"detail"`
+	Config   string `json:"config"`
+	Choices  []int  `json:"choices"`
 	raw      json.RawMessage
 }
 
@@ -196,6 +196,7 @@ type genOut struct {
 		Exit    int    `json:"exit"`
 		Files   int    `json:"files"`
 		Illegal bool   `json:"illegal"`
+		NoRun   bool   `json:"no_run"`
 		CType   string `json:"ctype"`
 		CCtor   string `json:"cctor"`
 	} `json:"items"`
@@ -236,7 +237,9 @@ func runEngine2(o opts) int {
 	for _, it := range g.Items {
 		if it.Exit == 0 {
 			accepted++
-			items = append(items, prep.ProbeItem{Name: it.Name, CType: it.CType, CCtor: it.CCtor})
+			if !it.NoRun {
+				items = append(items, prep.ProbeItem{Name: it.Name, CType: it.CType, CCtor: it.CCtor})
+			}
 		} else {
 			rejected++
 		}
@@ -401,31 +404,31 @@ func report2(o opts, s *prep.Scratch, probe string, g genOut, m1 *merged, m2 *e2
 	st := m2.stats
 	evals := st.Runs + g.Builds
 	cov := map[string]any{
-		"evaluations":              evals,
-		"distinct_nontrivial":      len(m2.distinct),
-		"rule":                     ruleText2[o.prop],
-		"samples":                  st.Samples,
-		"simulated_runs":           st.Runs,
-		"runs_per_hour":            int(float64(st.Runs) / wall * 3600),
-		"seeds_per_hour":           int(float64(st.Runs) / wall * 3600),
-		"simulated_time":           fmt.Sprintf("%d scheduler steps over %d runs (the system has no clock or timers; simulated time is counted in scheduling steps)", st.Steps, st.Runs),
-		"client_operations":        st.Ops,
-		"operation_kinds":          st.OpKinds,
-		"scheduler_policies":       st.Policies,
-		"contended_decisions":      st.Contended,
-		"lock_blocks":              st.Blocks,
-		"distinct_interleavings":   len(m2.interleave),
-		"interleaving_measure":     "distinct (configuration, sequence of tasks chosen at decisions with more than one runnable task)",
-		"run_outcomes":             st.Outcomes,
-		"probes":                   st.Probes,
-		"effective_scopes_seen":    st.Scopes,
-		"fault_kinds_fired":        st.Faults,
-		"runs_per_configuration":   st.PerConfig,
-		"configurations_drawn":     len(g.Items),
-		"configurations_built":     g.Builds,
+		"evaluations":                  evals,
+		"distinct_nontrivial":          len(m2.distinct),
+		"rule":                         ruleText2[o.prop],
+		"samples":                      st.Samples,
+		"simulated_runs":               st.Runs,
+		"runs_per_hour":                int(float64(st.Runs) / wall * 3600),
+		"seeds_per_hour":               int(float64(st.Runs) / wall * 3600),
+		"simulated_time":               fmt.Sprintf("%d scheduler steps over %d runs (the system has no clock or timers; simulated time is counted in scheduling steps)", st.Steps, st.Runs),
+		"client_operations":            st.Ops,
+		"operation_kinds":              st.OpKinds,
+		"scheduler_policies":           st.Policies,
+		"contended_decisions":          st.Contended,
+		"lock_blocks":                  st.Blocks,
+		"distinct_interleavings":       len(m2.interleave),
+		"interleaving_measure":         "distinct (configuration, sequence of tasks chosen at decisions with more than one runnable task)",
+		"run_outcomes":                 st.Outcomes,
+		"probes":                       st.Probes,
+		"effective_scopes_seen":        st.Scopes,
+		"fault_kinds_fired":            st.Faults,
+		"runs_per_configuration":       st.PerConfig,
+		"configurations_drawn":         len(g.Items),
+		"configurations_built":         g.Builds,
 		"configurations_not_compiling": nbroken,
-		"known_findings_hit":       known,
-		"exhaustive":               false,
+		"known_findings_hit":           known,
+		"exhaustive":                   false,
 		"components": map[string]any{
 			"real_code": []string{"the generated containers (output of the working tree's build command; rewritten only: a scheduler yield before every statement, sync -> simsync, os env calls)",
 				"the whole build pipeline of /repo that produced them (engine 1, fault-free, random map schedule)", "gontainer-helpers runtime: container, caller, copier, exporter, setter, grouperror, graph (rewritten only at map ranges and sync.{Mutex,RWMutex,Once})"},
